@@ -79,6 +79,12 @@ def parseOp (j : Json) : Except String Op := do
   | "copy" => pure (.copy (← getNat j "i"))
   | "pickle" => pure (.pickle (← getNat j "i"))
   | "isValid" => pure (.isValid (← getNat j "i"))
+  | "checkValidity" => pure (.checkValidity (← getNat j "i"))
+  | "scribble" =>
+    let how ← match (← getStr j "how") with
+      | "edit" => pure Scribble.edit | "append" => pure Scribble.append | "clear" => pure Scribble.clear
+      | h => throw s!"bad scribble {h}"
+    pure (.scribble (← getNat j "i") (← getSymOpt j "u") how)
   | "format" => pure (.format (← getNat j "i"))
   | "changingIndex" => pure (.changingIndex (← getNat j "i") (← getInt j "idx") (← parseOperand j "v") (← getBool j "uvu"))
   | "indexAsScalar" => pure (.indexAsScalar (← getNat j "i") (← getInt j "idx"))
@@ -150,6 +156,8 @@ def opMag (s : St) : Op → Rat
   | .copy i => magSnap (snap s i)
   | .pickle i => magSnap (snap s i)
   | .isValid i => magSnap (snap s i)
+  | .checkValidity i => magSnap (snap s i)
+  | .scribble i .. => magSnap (snap s i)
   | .format i => magSnap (snap s i)
   | .changingIndex i _ v _ => maxR (magSnap (snap s i)) (operandMag s v)
   | .indexAsScalar i _ => magSnap (snap s i)
@@ -191,13 +199,49 @@ def runOps (db : Db) : St → List Op → List Json × St
     let rest := runOps db r.1 ops
     (j :: rest.1, rest.2)
 
+def getRatOpt (j : Json) (k : String) : Except String (Option Rat) :=
+  match j.getObjVal? k with
+  | .ok (.str s) => match parseRat? s with
+    | some q => .ok (some q)
+    | none => .error s!"field {k} is not a rational"
+  | _ => .ok none
+
+/-- a category registered on top of POSC by the harness (`AddCategory(name, qtype, default_unit=…, limits)`) -/
+def parseCat (j : Json) : Except String CatRow := do
+  pure { name := ← getSym j "name", qtype := ← getSym j "qtype", validUnits := none,
+         defaultUnit := ← getSym j "unit", defaultValue := ← getRat j "default",
+         minV := ← getRatOpt j "min", maxV := ← getRatOpt j "max", minExcl := ← getBool j "minExcl",
+         maxExcl := ← getBool j "maxExcl", caption := ← getSym j "name" }
+
+def dbWith (j : Json) : Except String Db := do
+  match j.getObjVal? "cats" with
+  | .ok (.arr a) =>
+    let extra ← a.toList.mapM parseCat
+    pure { Gen.poscDb with cats := Gen.poscDb.cats ++ extra }
+  | _ => pure Gen.poscDb
+
+def getRatsNaN (j : Json) (k : String) : Except String (List (Option Rat)) := do
+  let a ← getArr j k
+  a.toList.mapM (fun x => match x with
+    | .str "nan" => pure none
+    | .str s => match parseRat? s with
+      | some q => pure (some q)
+      | none => throw s!"bad rational in {k}"
+    | _ => throw s!"bad rational in {k}")
+
 def handle (j : Json) : Except String Json := do
   let op ← getStr j "op"
   match op with
+  | "validate" =>
+    let db ← dbWith j
+    match validateNaN db (← getSym j "c") (← getSym j "u") (← getRatsNaN j "xs") with
+    | .ok _ => pure (Json.mkObj [("ok", .bool true)])
+    | .error e => pure (errJ e)
   | "history" =>
+    let db ← dbWith j
     let ops ← getArr j "ops"
     let ops ← ops.toList.mapM parseOp
-    let r := runOps Gen.poscDb St.empty ops
+    let r := runOps db St.empty ops
     let pool := (List.range r.2.objs.length).map (fun i => snapJ r.2 (snap r.2 i))
     pure (Json.mkObj [("outs", Json.arr r.1.toArray), ("pool", Json.arr pool.toArray),
       ("cells", toJson r.2.heap.length), ("quants", toJson r.2.quants.length)])
